@@ -37,7 +37,83 @@ def check_arguments(run, tier, seed):
     # tensor named next to its components; only the caller's objects are examined here (C11 / C12 decide the returned data)
     k = et_arguments(run)
     run.info["et_read_argument_checks"] = k
-    run.traces += n + m + k
+    h = helper_arguments(run)
+    run.info["public_helper_argument_checks"] = h
+    run.traces += n + m + k + h
+
+
+def helper_arguments(run):
+    """The public array helpers (maths, numerical, reading.join_chunks / fixij, FiniteDifference methods) leave what they are given untouched."""
+    import copy
+    import numpy as np
+    import aurel.maths as mt
+    import aurel.numerical as num
+    import aurel.reading as R
+    from .. import fields
+    rng = np.random.default_rng(5)
+    fd = fields.make_fd(N=7, order=4)
+    sh = fd.x.shape
+    sym3 = rng.normal(size=(3, 3) + sh)
+    sym3 = sym3 + np.swapaxes(sym3, 0, 1) + 4 * np.eye(3)[(...,) + (None,) * 3]
+    g4 = rng.normal(size=(4, 4) + sh)
+    g4 = g4 + np.swapaxes(g4, 0, 1) + 6 * np.diag([-1.0, 1, 1, 1])[(...,) + (None,) * 3]
+    t3 = rng.normal(size=(3, 3) + sh)
+    zb = rng.normal(size=sh)
+    zb[0, 0, 0] = 0.0
+    th = np.pi * (np.arange(8) + 0.5) / 8
+    ph = 2 * np.pi * (np.arange(16) + 0.5) / 16
+    TH, PH = np.meshgrid(th, ph, indexing="ij")
+    fcomplex = (rng.normal(size=TH.shape) + 1j * rng.normal(size=TH.shape)).astype(np.complex128)
+    alm = {(l, m_): complex(rng.normal(), rng.normal()) for l in range(3) for m_ in range(-l, l + 1)}
+    chunks = {(0, 0, 0): rng.normal(size=(2, 3, 2)), (2, 0, 0): rng.normal(size=(2, 3, 2)), (0, 0, 2): rng.normal(size=(2, 3, 2)),
+              (2, 0, 2): rng.normal(size=(2, 3, 2))}
+    grid = (fd.xarray, fd.yarray, fd.zarray)
+    tgt = tuple(np.array([[a[1] + 0.3 * (a[2] - a[1])]]) for a in grid)
+    calls = {
+        "maths.determinant3": lambda a: mt.determinant3(a["sym3"]),
+        "maths.inverse3": lambda a: mt.inverse3(a["sym3"]),
+        "maths.determinant4": lambda a: mt.determinant4(a["g4"]),
+        "maths.inverse4": lambda a: mt.inverse4(a["g4"]),
+        "maths.symmetrise_tensor": lambda a: mt.symmetrise_tensor(a["t3"]),
+        "maths.antisymmetrise_tensor": lambda a: mt.antisymmetrise_tensor(a["t3"]),
+        "maths.safe_division": lambda a: mt.safe_division(a["t3"][0, 0], a["zb"]),
+        "maths.sYlm": lambda a: mt.sYlm(-2, 2, 1, a["TH"], a["PH"]),
+        "maths.sYlm_coefficients": lambda a: mt.sYlm_coefficients(-2, 2, a["fcomplex"], a["TH"], a["PH"], a["w"], 2 * np.pi / 16),
+        "maths.sYlm_reconstruct": lambda a: mt.sYlm_reconstruct(-2, 2, a["alm"], a["TH"], a["PH"]),
+        "numerical.interpolate": lambda a: num.interpolate(a["zb"], a["grid"], a["tgt"]),
+        "reading.join_chunks": lambda a: R.join_chunks(a["chunks"]),
+        "reading.fixij": lambda a: R.fixij(a["zb"]),
+        "fd.d3_scalar": lambda a: fd.d3_scalar(a["zb"]),
+        "fd.d3_rank2tensor": lambda a: fd.d3_rank2tensor(a["t3"]),
+        "fd.cutoffmask": lambda a: fd.cutoffmask(a["zb"]),
+        "fd.cartesian_to_spherical": lambda a: fd.cartesian_to_spherical(a["x"], a["y"], a["z"]),
+        "fd.spherical_to_cartesian": lambda a: fd.spherical_to_cartesian(a["r"], a["TH3"], a["PH3"]),
+    }
+    args0 = {"sym3": sym3, "g4": g4, "t3": t3, "zb": zb, "TH": TH, "PH": PH, "fcomplex": fcomplex, "w": np.sin(TH) * (np.pi / 8), "alm": alm,
+             "chunks": chunks, "grid": grid, "tgt": tgt, "x": fd.x.copy(), "y": fd.y.copy(), "z": fd.z.copy(),
+             "r": np.full(sh, 1.5), "TH3": np.full(sh, 0.7), "PH3": np.full(sh, 4.0)}
+
+    def same(a, b):
+        if isinstance(a, dict):
+            return isinstance(b, dict) and list(a.keys()) == list(b.keys()) and all(same(a[k_], b[k_]) for k_ in a)
+        if isinstance(a, (tuple, list)):
+            return type(a) is type(b) and len(a) == len(b) and all(same(x, y) for x, y in zip(a, b))
+        if isinstance(a, np.ndarray):
+            return isinstance(b, np.ndarray) and a.dtype == b.dtype and a.shape == b.shape and np.array_equal(a, b, equal_nan=True)
+        return a == b
+    n = 0
+    for name, fn in calls.items():
+        args = copy.deepcopy(args0)
+        try:
+            fn(args)
+        except Exception:
+            pass
+        n += 1
+        changed = [k_ for k_ in args0 if not same(args[k_], args0[k_])]
+        if changed:
+            run.violation({"clause": "ArgsUntouched", "call": name, "arg": changed[0]},
+                          f"{name} modified the argument(s) {changed} it was given (arrays / dictionaries compared before and after the call)", {"call": name})
+    return n
 
 
 def et_arguments(run):
